@@ -59,6 +59,15 @@ CHECKS = [
              'only gauge-invariant clauses are asserted with tolerance 1e-11*||a||; a rejection by eig is accepted only when a dense '
              'eigen-analysis shows a (near-)degenerate or ill-conditioned block.',
      'note': 'trusted: yastn tensordot/transpose/to_numpy for forming U S V and the Gram matrices (covered by C01); NumPy/SciPy linear algebra'},
+    {'id': 'C05',
+     'technique': 'Hypothesis-generated tensors/networks with an independent parity-sign reference (dense sign tensors, numpy.einsum) and all-orders metamorphic comparison; exhaustive fkron enumeration against Jordan-Wigner matrices',
+     'text': 'swap_gate (pair groups and charge= variant) on generated tensors in every fermionic setting equals the dense tensor times '
+             'signs computed from sector parities, is an involution and the identity for bosons; ncon/einsum networks (<=4 tensors, swaps on '
+             'open/contracted legs, parity-odd tensors) give the same tensor exactly for every admissible contraction order (<=24 sampled) '
+             'and equal numpy.einsum with explicit sign matrices; fkron over operator tuples x all sites permutations x application orders '
+             'equals JW products; CAR enumerated for N=2,3.',
+     'note': 'trusted: parity model (charge mod 2 on flagged components), JW reference in vlib/jw.py; two open known findings on ncon swaps '
+             '(traced leg vs other tensor; partial crossing of parallel contracted legs)'},
     {'id': 'C13',
      'technique': 'Hypothesis-generated spectra and limit combinations checked with a validity predicate derived from the documented two-stage rule; error identity on generated factorisations',
      'text': 'Diagonal spectra with ties, zeros, one-element sectors over 1-5 sectors and every combination of D_total, D_block (scalar/dict), '
